@@ -97,7 +97,7 @@ func New(spec Spec) *Sys {
 	}
 	s.Mgr = &message.StoreManager{AddrPolicy: s.Policy, Store: s.StoreH.Store, ExtHost: s.Ext}
 	if spec.Web {
-		web.Router = mux.NewRouter()
+		web.VerifResetRouter()
 		prefix := stringutil.MakePathPrefixer(conf.Web.BasePath)
 		webui.SetupRoutes(web.Router.PathPrefix(prefix("/serve/")).Subrouter())
 		rest.SetupRoutes(web.Router.PathPrefix(prefix("/api/")).Subrouter())
@@ -365,6 +365,9 @@ func (s *Sys) RoundTrip(req *http.Request) (*http.Response, error) {
 		// the server sees what a real server would: RequestURI set, URL relative
 		sreq := req.Clone(req.Context())
 		sreq.RequestURI = req.URL.RequestURI()
+		if sreq.Body == nil {
+			sreq.Body = http.NoBody // a real server never hands a nil Body to a handler
+		}
 		s.Router.ServeHTTP(rec, sreq)
 	}()
 	if pv != nil {
